@@ -27,7 +27,9 @@ MANIFEST = {
             'simulation; each case is replayed into the real nms() in up to 4 input orders and the returned references, '
             'identified by position in the input slice, must form a list the specification admits; nms of its own '
             'output must return it unchanged. Box OBJECTS with a history (vertices generated, then turned / moved / resized / '
-            'cloned: GenObj.tla) are handed to nms() as well: the result is that of the current geometry.',
+            'cloned: GenObj.tla) are handed to nms() as well: the result is that of the current geometry. A separate alphabet of '
+            'long thin boxes in a row (the higher-ranked box is the shorter one and its circumscribed circle stops short of the centre of '
+            'the long box it covers by 0.325; also turned by a quarter turn) is enumerated over the full threshold grid.',
     'note': 'Trusted: TLC; Lattice.tla geometry (boxes on a half-unit lattice, angles in quarter turns - decided exactly; '
             'arbitrary angles are the business of C08); cases whose cover ratio equals the nms threshold exactly are '
             'skipped (float tie); rank ties are replayed with every list admissible under some tie-break.',
@@ -86,6 +88,8 @@ def run(chk):
     else:
         _, first = gen_and_replay(chk, "gen-full-0to3", enum_consts("full", 0, 3, "full"), timeout=1200)
         gen_and_replay(chk, "gen-small-4", enum_consts("small", 4, 4, "quick"), timeout=1200)
+    # 3b. long thin boxes in a row (the higher-ranked one is the shorter one), every threshold of the full grid
+    gen_and_replay(chk, "gen-elong-0to3", enum_consts("elong", 0, 3, "full"))
     # 4. random lists of 6..40 boxes (TLC -simulate; num is per worker)
     sim = {"Mode": "sim", "Alpha": "full", "MinLen": 0, "MaxLen": 0, "Grid": "full", "Ties": False}
     gen_and_replay(chk, "sim-40", sim, simulate={"num": 25 if quick else 500, "depth": 260}, timeout=600)
